@@ -3,7 +3,7 @@
    AsyncFixedBuf::read_frame IS `drive` instantiated with the translated prefix `arf_pre`, tokio's Read future
    `poll_read_future`, and the translated suffix `arf_post`: Model/TokioAsync.v `arf_drive`). *)
 From FB Require Import Sem.Base Sem.Lemmas Sem.ReadBuf Sem.Async Model.Fb Model.TokioAsync Spec.Api
-  Facets.Fb Facets.Fb2 Facets.Rf Facets.Async Facets.C14Blocking.
+  Facets.Fb Facets.Fb2 Facets.Rf Facets.Async Facets.C14Blocking Facets.AsyncCo.
 Open Scope Z_scope.
 
 (* the tokio crate's loop is the blocking loop: the translated BLOCKING body = async prefix; blocking read into the view; async suffix *)
@@ -49,6 +49,17 @@ Proof.
   exists polls. intros p Hle. rewrite (Hp p Hle). symmetry. exact (Facets.C14Blocking.read_frame_is_bloop SIZE chk A df Hdf Hq n k w HI Hfin).
 Qed.
 
+(* copy_once_from: the same three statements (it is the same lowering without a loop: prefix = writable() / full check, suffix = wrote(n)) *)
+Theorem c14_copy_once_pending_invisible : forall SIZE chk RS (A : AsyncReader RS) n k w, WI SIZE w ->
+  finished (bloop (lift_s aco_pre) (rf_await A) (fun q => lift_s (aco_post chk q)) n k w) ->
+  forall cancel, exists polls, forall p, (polls <= p)%nat ->
+    aco_drive chk A p cancel w = bloop (lift_s aco_pre) (rf_await A) (fun q => lift_s (aco_post chk q)) n k w.
+Proof. exact Facets.AsyncCo.aco_pending_invisible. Qed.
+Theorem c14_copy_once_blocking : forall SIZE chk RS (A : AsyncReader RS), quiet A -> forall k w, WI SIZE w ->
+  finished (bloop (lift_s aco_pre) (rf_await A) (fun q => lift_s (aco_post chk q)) 1 k w) ->
+  co_out (copy_once_from chk (BR A k) w) = bloop (lift_s aco_pre) (rf_await A) (fun q => lift_s (aco_post chk q)) 1 k w.
+Proof. exact Facets.AsyncCo.copy_once_is_bloop. Qed.
+
 (* a poll can suspend only in the branch where the reader's poll returned Pending in that same poll (structural: `drive` has one
    suspension point), and a Pending poll leaves every byte received so far readable: indices and unread bytes are untouched *)
 Theorem c14_pending_keeps_bytes : forall SIZE RS (A : AsyncReader RS) t v, WI SIZE t ->
@@ -87,3 +98,5 @@ Print Assumptions c14_pending_invisible.
 Print Assumptions c14_pending_keeps_bytes.
 Print Assumptions c14_blocking_is_read_frame.
 Print Assumptions c14_async_equals_blocking.
+Print Assumptions c14_copy_once_pending_invisible.
+Print Assumptions c14_copy_once_blocking.
